@@ -102,6 +102,11 @@ claim('C04', 'Hypothesis circuit programs (shared / controlled / placeholder / c
       'at generated parameter points and compared with finite differences of their own forward value, whose correctness is tied to dense references (C03 oracle, eigen-decomposition).',
       'trusted: finite differences with step 1e-5 (5e-5 five-point) at tolerance 1e-6*max(1,|g|); exactly rank-deficient PSD inputs outside the claim; kind="custom" gates need user grad_backward (outside)')
 
+claim('C20', 'Hypothesis generator families of all seven structure classes with dependent generators and mixed-structure first elements; subspaces with planted low-rank / product elements hidden by random mixing; random matrices for numerical ranges; oracle: Gram matrices, least-squares span tests in the real embedding, independent rank count, planted-element soundness, support function by dense eigenvalues',
+      'The decomposition is checked for common norm, orthogonality, exact span equality, dimension count and preserved structure in every class; rank / complete-entanglement / rank-one certificates '
+      'must never be issued for subspaces with a planted element below the bound (real and complex, hierarchy 1-2, 3 in thorough); numerical-range points must attain the support function.',
+      'trusted: numpy lstsq / matrix_rank / eigvalsh; completeness of certificates not claimed (certified fraction of generic subspaces recorded as non-vacuity label)')
+
 NOT_YET = 'check not built yet in this session (work in progress; see DESIGN.md section 4 for the planned generator and oracle)'
 
 ALL = [f'C{i:02d}' for i in range(1, 21)]
